@@ -398,6 +398,17 @@ package route
 //@ spec fun singleAdd(text string) bool
 //@ // tableAccepts(text): a routing table can be built from the text alone (target URL, path glob, ... are usable)
 //@ spec fun tableAccepts(text string) bool
+//@ // what fabio's parser reads from a text that is one definition - by definition the fields of the definition Parse
+//@ // returns for it (as with accepts(): Parse is a function of its argument)
+//@ spec fun defService(text string) string
+//@ spec fun defSrc(text string) string
+//@ spec fun defDst(text string) string
+//@ spec fun defWeight(text string) float64
+//@ spec fun defTagsLen(text string) int
+//@ spec fun defTag(text string, i int) string
+//@ spec fun defOptsLen(text string) int
+//@ spec fun defOptHas(text string, k string) bool
+//@ spec fun defOpt(text string, k string) string
 //@
 //@ // the compiled expressions of the parser are package variables initialised once; their group counts are what
 //@ // the literals show (checked on the real values by the bounded stand-in route_regexps)
@@ -412,6 +423,9 @@ package route
 //@   ensures [assumed] (err == nil) == accepts(old(bufOf[in]))
 //@   ensures [assumed] err == nil ==> (len(defs) == 1 && defs[0].Cmd == "route add") == singleAdd(old(bufOf[in]))
 //@   ensures [assumed] forall x *bytes.Buffer :: x != in ==> bufOf[x] == old(bufOf[x])
+//@   ensures [assumed] err == nil && len(defs) == 1 ==> defs[0].Service == defService(old(bufOf[in])) && defs[0].Src == defSrc(old(bufOf[in])) && defs[0].Dst == defDst(old(bufOf[in])) && defs[0].Weight == defWeight(old(bufOf[in]))
+//@   ensures [assumed] err == nil && len(defs) == 1 ==> len(defs[0].Tags) == defTagsLen(old(bufOf[in])) && forall i int :: 0 <= i && i < len(defs[0].Tags) ==> defs[0].Tags[i] == defTag(old(bufOf[in]), i)
+//@   ensures [assumed] err == nil && len(defs) == 1 ==> len(defs[0].Opts) == defOptsLen(old(bufOf[in])) && forall k string :: hasKey(defs[0].Opts, k) == defOptHas(old(bufOf[in]), k) && (hasKey(defs[0].Opts, k) ==> defs[0].Opts[k] == defOpt(old(bufOf[in]), k))
 //@   // success means the WHOLE text was read: the scanner stopped at the end of the input, not on an error of its own
 //@   // (it gives up on a line longer than its limit - without this the rest of the configuration was dropped silently)
 //@   at "return defs, nil" assert @C02 !scanFailed[scanner]
